@@ -327,7 +327,7 @@ func genUFCase(t *rapid.T) UFCase {
 func TestC13_Random(t *testing.T) {
 	rec := evid.New("C13", "c13_random", "rapid: sequences of 1..6 well-formed fields (every type, containers of 0..300 elements of every element/key/value type, structs nested in containers and vice versa, structs with 2..5 fields of mixed kinds, any field ids, canonical booleans); bytes -> ConvertUnknownFields -> tree compared with the reference decode incl. KeyType/ValType discipline; UnknownFieldsLength and WriteUnknownFields must reproduce the bytes; a normal-form tree built by the harness must write to the reference bytes and convert back unchanged; non-trivial = a struct in which a container field is followed by a non-container field, or a container of structs")
 	defer rec.Flush()
-	runRapid(t, rec, "c13_unknown_fields", evid.Pick(30000, 60000), genUFCase, checkUnknownFields)
+	runRapid(t, rec, "c13_unknown_fields", evid.Pick(30000, 400000), genUFCase, checkUnknownFields)
 }
 
 func TestC13_Pairs(t *testing.T) {
